@@ -61,3 +61,202 @@ Theorem c05_row_line_bars : forall t draw i sets pads j x,
     tl_string (row_line t draw i sets pads tl_new) = pre ++ bar draw :: post /\ swidth pre = x.
 Proof. exact TableProof.row_line_bars. Qed.
 Print Assumptions c05_row_line_bars.
+
+(* ---------- the table as rendered by render_node: rule, band, rule, ...; widths, bars, junctions, collapse of nested tables' rules, stacked fallback (Proofs/TableRender.v) ---------- *)
+From H2T Require Import Base Tagged Wrap Sub Css Dom Render Api CssParse Proofs.CssTotal Proofs.WrapInv Proofs.RenderWidth Proofs.Conserve Proofs.Footnotes Proofs.AnnBalance Proofs.RenderConserve Proofs.OptionRel Proofs.Compose Proofs.RenderTotal Proofs.FragStream Proofs.SimRel Proofs.Prune Proofs.TableRender.
+Theorem table_render_horizontal :
+  forall (d : deco) (mw : N),
+       ol_prefix_monotone d ->
+       ol_prefix_sat d ->
+       forall (rows : list rrow) (ncols : N) (sty : cstyle) (tp0 : subr) (rest : list subr) 
+         (lk0 : list text) (st' : rstate) (col_widths : list N),
+       RenderWidth.tree_ok false 0 (RN (ITable rows ncols) sty) = true ->
+       RenderWidth.st_inv false 0 {| stack := tp0 :: rest; links := lk0 |} ->
+       ptxt tp0 = [] ->
+       o_borders (sopts tp0) = true ->
+       table_layout d mw rows ncols (swidth_ tp0) (o_raw (sopts tp0)) = Ok (false, col_widths) ->
+       table_width_of false (swidth_ tp0) col_widths <> 0 ->
+       render_node d mw (RN (ITable rows ncols) sty) {| stack := tp0 :: rest; links := lk0 |} = Ok st' ->
+       exists
+         (tp1 : subr) (ps : pushed) (tp2 tpn : subr) (lk' : list text) (rsets : list (list (N * list rline))),
+         apply_style d {| stack := tp0 :: rest; links := lk0 |} sty =
+         Ok ({| stack := tp1 :: rest; links := lk0 |}, ps) /\
+         start_block tp1 = Ok tp2 /\
+         rows_run d mw (sopts tp0) col_widths rows lk0 rsets lk' /\
+         views (slines tpn) =
+         views (slines tp2) ++ table_views (border_new (table_width_of false (swidth_ tp0) col_widths)) rsets /\
+         wrapping tpn = None /\
+         swidth_ tpn = swidth_ tp0 /\ unwind d ps {| stack := tpn :: rest; links := lk' |} = Ok st'.
+Proof. exact TableRender.table_render_horizontal. Qed.
+Print Assumptions table_render_horizontal.
+
+Theorem c05_table_regular :
+  forall (d : deco) (mw : N),
+       ol_prefix_monotone d ->
+       ol_prefix_sat d ->
+       forall (rows : list rrow) (ncols : N) (sty : cstyle) (tp0 : subr) (rest : list subr) 
+         (lk0 : list text) (st' : rstate) (col_widths : list N),
+       RenderWidth.tree_ok false 0 (RN (ITable rows ncols) sty) = true ->
+       RenderWidth.st_inv false 0 {| stack := tp0 :: rest; links := lk0 |} ->
+       ptxt tp0 = [] ->
+       o_borders (sopts tp0) = true ->
+       table_layout d mw rows ncols (swidth_ tp0) (o_raw (sopts tp0)) = Ok (false, col_widths) ->
+       regular_table rows ncols = true ->
+       all_pos col_widths = true ->
+       ncols <> 0 ->
+       render_node d mw (RN (ITable rows ncols) sty) {| stack := tp0 :: rest; links := lk0 |} = Ok st' ->
+       let W := sumN col_widths + (ncols - 1) in
+       exists
+         (tp1 : subr) (ps : pushed) (tp2 tpn : subr) (lk' : list text) (rsets : list (list (N * list rline))),
+         apply_style d {| stack := tp0 :: rest; links := lk0 |} sty =
+         Ok ({| stack := tp1 :: rest; links := lk0 |}, ps) /\
+         start_block tp1 = Ok tp2 /\
+         rows_run d mw (sopts tp0) col_widths rows lk0 rsets lk' /\
+         views (slines tpn) = views (slines tp2) ++ table_views_j W [] rsets /\
+         Forall (fun v : vline => swidth (vline_string v) = W) (table_views_j W [] rsets) /\
+         W <= swidth_ tp0 /\
+         Forall
+           (fun sets : list (N * list rline) =>
+            TableProof.sets_exact sets /\
+            row_tot sets = W /\
+            (forall x : N, In x (row_above sets) -> x + 1 <= W) /\
+            (forall x : N, In x (row_below sets) -> x + 1 <= W)) rsets /\
+         wrapping tpn = None /\ unwind d ps {| stack := tpn :: rest; links := lk' |} = Ok st'.
+Proof. exact TableRender.c05_table_regular. Qed.
+Print Assumptions c05_table_regular.
+
+Theorem band_line_bars :
+  forall (sets : list (N * list rline)) (k j : nat) (x : N),
+       TableProof.sets_exact sets ->
+       nth_opt (TableProof.bar_positions (row_ws sets) 0) j = Some x ->
+       exists pre post : list chr,
+         TableProof.row_text true k (row_sets3 sets) (row_pads sets) = pre ++ vbar :: post /\ swidth pre = x.
+Proof. exact TableRender.band_line_bars. Qed.
+Print Assumptions band_line_bars.
+
+Theorem row_text_cell :
+  forall (draw : bool) (k : nat) (sets : list (N * list rline)) (pads : list (option text)) 
+         (j : nat) (w : N) (ls : list rline),
+       TableProof.row_ok k sets pads ->
+       nth_opt sets j = Some (w, ls) ->
+       exists pre post : list chr,
+         TableProof.row_text draw k sets pads = pre ++ TableProof.cell_text k w (nth j pads None) ls ++ post /\
+         swidth pre = cell_offset (map fst sets) j /\
+         swidth (TableProof.cell_text k w (nth j pads None) ls) = w.
+Proof. exact TableRender.row_text_cell. Qed.
+Print Assumptions row_text_cell.
+
+Theorem table_views_width :
+  forall (W : N) (rsets : list (list (N * list rline))) (pb : list seg),
+       Forall (fun sets : list (N * list rline) => TableProof.sets_exact sets /\ row_tot sets = W) rsets ->
+       N.of_nat (length pb) = W ->
+       Forall (fun v : vline => swidth (vline_string v) = W) (table_views pb rsets).
+Proof. exact TableRender.table_views_width. Qed.
+Print Assumptions table_views_width.
+
+Theorem junction_rule_spec :
+  forall (W : N) (A B : list N),
+       (forall y : N, In y A -> y + 1 <= W) ->
+       (forall y : N, In y B -> y + 1 <= W) ->
+       N.of_nat (length (junction_rule W A B)) = W /\
+       (forall x : N,
+        x < W ->
+        nth_opt (junction_rule W A B) (N.to_nat x) =
+        Some (Small.seg_of (existsb (N.eqb x) A) (existsb (N.eqb x) B))).
+Proof. exact TableRender.junction_rule_spec. Qed.
+Print Assumptions junction_rule_spec.
+
+Theorem junction_rule_glyph :
+  forall (W : N) (A B : list N) (x : N),
+       (forall y : N, In y A -> y + 1 <= W) ->
+       (forall y : N, In y B -> y + 1 <= W) ->
+       x < W ->
+       option_map cp (nth_opt (border_string (junction_rule W A B)) (N.to_nat x)) =
+       Some
+         (if existsb (N.eqb x) A
+          then if existsb (N.eqb x) B then 9532 else 9524
+          else if existsb (N.eqb x) B then 9516 else 9472).
+Proof. exact TableRender.junction_rule_glyph. Qed.
+Print Assumptions junction_rule_glyph.
+
+Theorem table_views_junctions :
+  forall (W : N) (rsets : list (list (N * list rline))) (A : list N),
+       Forall (fun sets : list (N * list rline) => row_tot sets = W) rsets ->
+       table_views (fold_left TableProof.apply_jop (map TableProof.JA A) (border_new W)) rsets =
+       table_views_j W A rsets.
+Proof. exact TableRender.table_views_junctions. Qed.
+Print Assumptions table_views_junctions.
+
+Theorem collapsed_top_in :
+  forall (sets : list (N * list rline)) (pos x : N),
+       In x (TableProof.collapsed_top sets pos) <->
+       (exists (j : nat) (w : N) (sub' : list rline) (line : list seg) (lt : tag) 
+        (k : nat) (sg : seg),
+          nth_opt sets j = Some (w, RLine line lt :: sub') /\
+          nth_opt line k = Some sg /\
+          seg_is_join sg = true /\ x = pos + cell_offset (map fst sets) j + N.of_nat k).
+Proof. exact TableRender.collapsed_top_in. Qed.
+Print Assumptions collapsed_top_in.
+
+Theorem collapsed_bottom_in :
+  forall (sets : list (N * list rline)) (pos x : N),
+       In x (TableProof.collapsed_bottom sets pos) <->
+       (exists (j : nat) (w : N) (sub : list rline) (line : list seg) (lt : tag) 
+        (k : nat) (sg : seg),
+          nth_opt sets j = Some (w, sub) /\
+          olast sub = Some (RLine line lt) /\
+          nth_opt line k = Some sg /\
+          seg_is_join sg = true /\ x = pos + cell_offset (map fst sets) j + N.of_nat k).
+Proof. exact TableRender.collapsed_bottom_in. Qed.
+Print Assumptions collapsed_bottom_in.
+
+Theorem collapsed_bottom_bars :
+  forall (sets : list (N * list rline)) (j : nat) (w : N) (sub : list rline) 
+         (line : list seg) (lt : tag) (k : nat) (sg : seg) (i : nat),
+       TableProof.sets_exact sets ->
+       nth_opt (top_strip sets) j = Some (w, sub) ->
+       olast sub = Some (RLine line lt) ->
+       nth_opt line k = Some sg ->
+       nth_opt (removelast sub) i = None ->
+       (seg_is_join sg = true -> In (cell_offset (row_ws sets) j + N.of_nat k) (row_above sets)) /\
+       (exists pre post : list chr,
+          TableProof.row_text true i (row_sets3 sets) (row_pads sets) = pre ++ vline_char sg :: post /\
+          swidth pre = cell_offset (row_ws sets) j + N.of_nat k).
+Proof. exact TableRender.collapsed_bottom_bars. Qed.
+Print Assumptions collapsed_bottom_bars.
+
+Theorem row_bars_on_column_boundaries :
+  forall (ws_ : list N) (cells : list rcell) (cws : list (option N)) (sets : list (N * list rline)),
+       all_pos ws_ = true ->
+       cell_widths false ws_ cells 0 = Ok cws ->
+       map fst sets = somes cws ->
+       forall x : N, In x (TableProof.bar_positions (row_ws sets) 0) -> In x (TableProof.bar_positions ws_ 0).
+Proof. exact TableRender.row_bars_on_column_boundaries. Qed.
+Print Assumptions row_bars_on_column_boundaries.
+
+Theorem table_render_stacked :
+  forall (d : deco) (mw : N),
+       ol_prefix_monotone d ->
+       ol_prefix_sat d ->
+       forall (rows : list rrow) (ncols : N) (sty : cstyle) (tp0 : subr) (rest : list subr) 
+         (lk0 : list text) (st' : rstate) (col_widths : list N),
+       RenderWidth.tree_ok false 0 (RN (ITable rows ncols) sty) = true ->
+       RenderWidth.st_inv false 0 {| stack := tp0 :: rest; links := lk0 |} ->
+       ptxt tp0 = [] ->
+       table_layout d mw rows ncols (swidth_ tp0) (o_raw (sopts tp0)) = Ok (true, col_widths) ->
+       render_node d mw (RN (ITable rows ncols) sty) {| stack := tp0 :: rest; links := lk0 |} = Ok st' ->
+       let W := swidth_ tp0 in
+       let b := o_borders (sopts tp0) in
+       exists
+         (tp1 : subr) (ps : pushed) (tp2 tpn : subr) (lk' : list text) (rlines : list (list (list rline))),
+         apply_style d {| stack := tp0 :: rest; links := lk0 |} sty =
+         Ok ({| stack := tp1 :: rest; links := lk0 |}, ps) /\
+         start_block tp1 = Ok tp2 /\
+         (forall w : N, In w col_widths -> w = W) /\
+         rows_run_v d mw (sopts tp0) W col_widths rows lk0 rlines lk' /\
+         strs (slines tpn) =
+         strs (slines tp2) ++ (if negb (W =? 0) && b then [hrule W] else []) ++ stacked_strs b W rlines /\
+         wrapping tpn = None /\ unwind d ps {| stack := tpn :: rest; links := lk' |} = Ok st'.
+Proof. exact TableRender.table_render_stacked. Qed.
+Print Assumptions table_render_stacked.
+
